@@ -1,6 +1,6 @@
 (* C18 — property theorems only: each closed by [exact] and followed by Print Assumptions. *)
 From Coq Require Import List Arith ZArith Bool.
-From AV Require Import Model.C18_Fault Model.C18_Frame Proofs.C18_Fault Proofs.C18_Frame.
+From AV Require Import Model.C18_Fault Model.C18_Frame Model.C18_Avro Proofs.C18_Fault Proofs.C18_Frame Proofs.C18_Avro.
 Import ListNotations.
 
 (* ---------------------------------------------------------------- writers: sink faults
@@ -109,3 +109,18 @@ Theorem footer_truncation_rejected_no_embedded_footer_ipc_file :
   forall k, k < length file -> ipc_footer_ok (firstn k file) = false.
 Proof. exact ipc_no_embedded_footer. Qed.
 Print Assumptions footer_truncation_rejected_no_embedded_footer_ipc_file.
+
+(* avro_ocf_truncation: for every 16-byte sync marker, every sequence of blocks (row count, data) and
+   every cut position k, the block reader returns exactly the blocks that lie completely before the
+   cut and then a clean end: never an error, never rows of a partial block. *)
+Theorem avro_ocf_truncation :
+  forall (sync : list Z), length sync = 16 ->
+  forall (bl : list (Z * list Z)) (k : nat),
+  Forall wf_block bl -> k <= length (enc_blocks sync bl) ->
+  exists n : nat,
+    read_all_blocks sync (firstn k (enc_blocks sync bl)) = (firstn n bl, End) /\
+    n <= length bl /\ length (enc_blocks sync (firstn n bl)) <= k /\
+    (n = length bl \/ k < length (enc_blocks sync (firstn (S n) bl))) /\
+    (k = length (enc_blocks sync bl) -> n = length bl).
+Proof. exact blocks_truncation. Qed.
+Print Assumptions avro_ocf_truncation.
